@@ -4,6 +4,7 @@ package main
 
 import (
 	"fmt"
+	"go/token"
 	"go/types"
 	"math"
 	"math/big"
@@ -81,10 +82,28 @@ func init() {
 		return s.newInput(argStr(a[0]), SBool)
 	})
 	reg(symPkg+".Float64Bits", func(s *State, fn *ssa.Function, a []Value) Value {
+		if s.eng.cfg.Domain == DomainK {
+			t := s.newInput(argStr(a[0]), SInt)
+			s.run.kInputs[t.Name] = true
+			lo := new(big.Int).Neg(kM)
+			lo.Sub(lo, big.NewInt(1))
+			s.assumeRaw(s.ctx.And(s.ctx.Le(s.ctx.IntConstBig(lo), t), s.ctx.Le(t, s.ctx.IntConstBig(kM))))
+			return t
+		}
 		if s.eng.cfg.Domain != DomainB {
 			panic(abortf("sym.Float64Bits outside domain B"))
 		}
-		return s.newInput(argStr(a[0]), BV(64))
+		t := s.newInput(argStr(a[0]), BV(64))
+		if s.noNaNInputs {
+			c := s.ctx
+			s.assumeRaw(c.BVUle(c.BVAnd(t, c.BVConst(absMask, 64)), c.BVConst(expMask, 64)))
+			s.nonNaN[t] = true
+		}
+		return t
+	})
+	reg(symPkg+".NoNaNInputs", func(s *State, fn *ssa.Function, a []Value) Value {
+		s.noNaNInputs = true
+		return nil
 	})
 	reg(symPkg+".Float64Grid", func(s *State, fn *ssa.Function, a []Value) Value {
 		k := argInt(a[1])
@@ -108,6 +127,24 @@ func init() {
 		s.assume(s.ctx.And(s.ctx.Le(s.ctx.IntConst(lo), t), s.ctx.Le(t, s.ctx.IntConst(hi))))
 		s.setInfo(t, &FInfo{exact: true, scale: 0, lo: big.NewRat(lo, 1), hi: big.NewRat(hi, 1)})
 		return t
+	})
+
+	// solver-free forks over a fresh variable with a concrete range
+	reg(symPkg+".Choose", func(s *State, fn *ssa.Function, a []Value) Value {
+		lo, hi := argInt(a[1]), argInt(a[2])
+		if hi < lo {
+			panic(pathEnd{"empty choice"})
+		}
+		t := s.newInput(argStr(a[0]), BV(64))
+		v := s.chooseFree(lo, hi)
+		s.assumeRaw(s.ctx.Eq(t, c64(s, v)))
+		return c64(s, v)
+	})
+	reg(symPkg+".Flip", func(s *State, fn *ssa.Function, a []Value) Value {
+		t := s.newInput(argStr(a[0]), SBool)
+		v := s.chooseFree(0, 1)
+		s.assumeRaw(s.ctx.Eq(t, s.ctx.Bool(v == 1)))
+		return s.ctx.Bool(v == 1)
 	})
 
 	// ---- assumptions / obligations ----
@@ -185,18 +222,27 @@ func init() {
 		return s.ctx.Eq(a[0].(*Term), a[1].(*Term))
 	})
 	reg(symPkg+".FEq", func(s *State, fn *ssa.Function, a []Value) Value { // float ==, non-forking (same as ==)
+		if s.eng.cfg.Domain == DomainK {
+			return s.fbinop(token.EQL, a[0].(*Term), a[1].(*Term))
+		}
 		if s.eng.cfg.Domain == DomainB {
 			return s.bEq(a[0].(*Term), a[1].(*Term))
 		}
 		return s.ctx.Eq(a[0].(*Term), a[1].(*Term))
 	})
 	reg(symPkg+".FLe", func(s *State, fn *ssa.Function, a []Value) Value {
+		if s.eng.cfg.Domain == DomainK {
+			return s.fbinop(token.LEQ, a[0].(*Term), a[1].(*Term))
+		}
 		if s.eng.cfg.Domain == DomainB {
 			return s.ctx.Or(s.bLt(a[0].(*Term), a[1].(*Term)), s.bEq(a[0].(*Term), a[1].(*Term)))
 		}
 		return s.ctx.Le(a[0].(*Term), a[1].(*Term))
 	})
 	reg(symPkg+".FLt", func(s *State, fn *ssa.Function, a []Value) Value {
+		if s.eng.cfg.Domain == DomainK {
+			return s.fbinop(token.LSS, a[0].(*Term), a[1].(*Term))
+		}
 		if s.eng.cfg.Domain == DomainB {
 			return s.bLt(a[0].(*Term), a[1].(*Term))
 		}
@@ -266,6 +312,20 @@ func init() {
 		return s.ctx.False()
 	})
 	reg("math.IsInf", func(s *State, fn *ssa.Function, a []Value) Value {
+		if s.eng.cfg.Domain == DomainK {
+			sg := argInt(a[1])
+			c := s.ctx
+			x := a[0].(*Term)
+			pos := c.Eq(x, c.IntConstBig(kCode(math.Inf(1))))
+			neg := c.Eq(x, c.IntConstBig(kCode(math.Inf(-1))))
+			switch {
+			case sg > 0:
+				return pos
+			case sg < 0:
+				return neg
+			}
+			return c.Or(pos, neg)
+		}
 		if s.eng.cfg.Domain == DomainB {
 			sg := a[1].(*Term)
 			if !sg.IsConst() {
@@ -290,6 +350,9 @@ func init() {
 	reg("math.Min", func(s *State, fn *ssa.Function, a []Value) Value { return s.fmin(a[0].(*Term), a[1].(*Term)) })
 	reg("math.Max", func(s *State, fn *ssa.Function, a []Value) Value { return s.fmax(a[0].(*Term), a[1].(*Term)) })
 	reg("math.Signbit", func(s *State, fn *ssa.Function, a []Value) Value {
+		if s.eng.cfg.Domain == DomainK {
+			return s.ctx.Lt(a[0].(*Term), s.ctx.IntConst(0))
+		}
 		if s.eng.cfg.Domain == DomainB {
 			return s.ctx.Eq(s.ctx.Extract(a[0].(*Term), 63, 63), s.ctx.BVConst(1, 1))
 		}
